@@ -72,7 +72,8 @@ def run(R):
         has_rem = any(k.endswith("<impl core::ops::arith::Rem for ruint::Uint<BITS, LIMBS>>::rem") for k in calls)
         convs = [c for c in disp.calls if c["ncallee"].endswith("ruint::Uint<BITS, LIMBS>>::from") and
                  any("TOKEN_TO_RAW_CONVERSION" in k[1] and "POWER" not in k[1] for k in c["consts"])]
-        ok2 = has_div and has_rem and len(convs) >= 1
+        has_divrem = any("ruint::" in k and k.endswith("::div_rem") for k in calls)      # one call yielding (quotient, remainder)
+        ok2 = ((has_div and has_rem) or has_divrem) and len(convs) >= 1
         if ok2:
             # both the quotient and the remainder are taken by that conversion constant (computed once or twice)
             prep(disp)
@@ -80,7 +81,8 @@ def run(R):
                                                     and any(a[0] == "c" and "TOKEN_TO_RAW_CONVERSION" in a[1] and "POWER" not in a[1] for a in b["term"]["args"])})
             for blk in disp.blocks:
                 t = blk["term"]
-                if t["k"] == "call" and not blk["cleanup"] and (t["ncallee"] or "").endswith(("Div for ruint::Uint<BITS, LIMBS>>::div", "Rem for ruint::Uint<BITS, LIMBS>>::rem")):
+                if t["k"] == "call" and not blk["cleanup"] and ((t["ncallee"] or "").endswith(("Div for ruint::Uint<BITS, LIMBS>>::div", "Rem for ruint::Uint<BITS, LIMBS>>::rem"))
+                                                                or ("ruint::" in (t["ncallee"] or "") and (t["ncallee"] or "").endswith("::div_rem"))):
                     if op_local(t["args"][1]) not in cv:
                         ok2 = False
         if not ok2:
@@ -162,7 +164,7 @@ def decimal_only(R):
         if not any(k[0] == 1 and k[1].startswith("10_") for k in c.get("consts") or []):
             ok = False
             R.viol("C16.parse.decimal", "radix-not-10:%s" % R.root_path(b).split("::")[-1], "from_str_radix is not called with the literal radix 10 in %s" % b.path, b, c["line"])
-        body = F.body(b.path)
+        body = F.root_of(b) if b.kind == "closure" else F.body(b.path)      # a closure handed to a combinator is judged inside the function it was written in
         prep(body)
         gd = CallGuard(["*core::iter::traits::iterator::Iterator>::all", "core::iter::traits::iterator::Iterator::all"], ("true",), "all characters are ASCII digits", arg_pred=digits_pred)
         # the same test as an explicit loop over the characters
@@ -175,7 +177,7 @@ def decimal_only(R):
     for b, c in other:
         if (b, c) in lax:
             continue
-        body = F.body(b.path)
+        body = F.root_of(b) if b.kind == "closure" else F.body(b.path)      # a closure handed to a combinator is judged inside the function it was written in
         prep(body)
         gd = CallGuard(["*core::iter::traits::iterator::Iterator>::all", "core::iter::traits::iterator::Iterator::all"], ("true",), "all characters are ASCII digits", arg_pred=digits_pred)
         from rules import ForallGuard
